@@ -21,6 +21,8 @@ def walk(x):
     """pre-order generator over all AST nodes below x (inclusive)"""
     if isinstance(x, AST):
         yield x
+        if x.ast_type == ASTType.TheoryAtom:
+            return      # theory atoms are outside the properties' quantifier (and outside ngo's target fragment)
         for k in x.keys():
             if k == "location":
                 continue
